@@ -32,6 +32,19 @@ theorem inter_cases (k : Nat) (s p : Vec) :
     simp only [hi, if_true] at this
     omega
 
+/-- ACCTRAN at a node that has children (equation used instead of unfolding the definitions) -/
+theorem acctran_upA_cons (k : Nat) (tv : String → Vec) (p : Option Vec) (d : NodeD) (pp : Nat) (x : EdgeD × T) (xs : Kids) :
+    acctran k p (upA k tv (.node d pp (x :: xs))) =
+      .node (match p with | none => upS k tv (.node d pp (x :: xs)) | some pv => inter k (upS k tv (.node d pp (x :: xs))) pv)
+        (acctranL k (some (match p with | none => upS k tv (.node d pp (x :: xs)) | some pv => inter k (upS k tv (.node d pp (x :: xs))) pv))
+          (upAL k tv (x :: xs))) := by
+  obtain ⟨e0, c0⟩ := x
+  cases p <;> simp only [upA, upAL, acctran]
+
+theorem acctran_upA_leaf (k : Nat) (tv : String → Vec) (p : Option Vec) (d : NodeD) (pp : Nat) :
+    acctran k p (upA k tv (.node d pp [])) = .node (tv d.name) [] := by
+  simp only [upA, upAL, upS, acctran]
+
 section acc
 variable (k : Nat) (tv : String → Vec)
 
@@ -187,20 +200,20 @@ theorem acc_tree (hk : 0 < k) (MIN : Nat) : ∀ c : T, PA k tv MIN c := by
     match ks, ih, hR, hl, p, h, hg, hin with
     | [], _, _, _, [], _, _, hin => simp [innerAt, innerOpt, sub] at hin
     | [], _, _, _, i :: q, _, _, hin => simp [innerAt, innerOpt, sub, subL] at hin
-    | x :: xs, ih, hR, hl, p, h, hg, hin =>
+    | (e0, c0) :: xs, ih, hR, hl, p, h, hg, hin =>
       rw [leaves_node_cons] at hl
-      have hstep := acc_step k tv hk d pp x xs hl MIN pv totv R U hpar hU hR
+      have hstep := acc_step k tv hk d pp (e0, c0) xs hl MIN pv totv R U hpar hU hR
       match p, h, hg, hin with
       | [], h, hg, _ =>
-        simp only [upA, acctran, A.get, Option.some.injEq] at h
+        simp only [upA, upAL, acctran, A.get, Option.some.injEq] at h
         simp only [totA, A.get, Option.some.injEq] at hg
         subst h; subst hg
         exact fun s hs hne => hstep.hopt s hs hne
       | i :: q, h, hg, hin =>
-        simp only [upA, acctran, A.get] at h
+        simp only [upA, upAL, acctran, A.get] at h
         simp only [totA, A.get] at hg
-        refine acc_list k tv hk MIN (x :: xs) ih hl U (vzero k) _ _ hstep ?_ i q vec tot h hg
-          (by simpa [innerAt, sub] using hin)
+        refine acc_list k tv hk MIN ((e0, c0) :: xs) ih hl U (vzero k) _ _ hstep ?_ i q vec tot
+          (by simpa only [upAL] using h) hg (by simpa [innerAt, sub] using hin)
         intro t ht
         simp only [at_vadd, at_vzero, ht, if_true]
         omega
